@@ -9,6 +9,10 @@ s = open(p).read()
 i = s.index("| seed | property | change (abridged) |")
 m = re.search(r"\n\d+ of \d+ seeded changes are reported by at least one registered check\.\n", s[i:])
 j = i + m.end()
+# an embedded "Retired" list from an earlier run belongs to the table as well
+m2 = re.match(r"\nRetired \(kept for reference[^\n]*\n\n(\* [^\n]*\n)+", s[j:])
+if m2:
+    j += m2.end()
 s = s[:i] + table.rstrip("\n") + "\n" + s[j:]
 open(p, "w").write(s)
 print(table.strip().split("\n")[-1])
